@@ -1519,3 +1519,78 @@ func ruleOsapFastPath(c *Ctx) {
 		c.check(grows, key+":counts", cut.b.Instrs[0].Pos(), "the counter is incremented where edges are stored", "the counter guarding the literal-only shortcut is never incremented: the shortcut would always be taken")
 	}
 }
+
+// ---------------------------------------------------------------- R-SLOT-CAP
+//
+// OSAP hands every position a slot of a shared buffer (edges[i] = edgeBuf[4i : 4i : 4i+4]) and appends edges to the
+// slots later. The append stays inside the slot only because the slice expression limits the capacity; written
+// as edgeBuf[4i:4i] the fifth edge of a position silently lands in the slot of the next position, and the parser
+// — which never compares bytes — emits matches that do not exist. Decided for every store of a sub-slice of one
+// slice field into an element of a slice-of-slices field of the same receiver: the expression has a max index,
+// max − low is a constant d ≥ 1, and low advances by at least d per element (low = c·i + e with c ≥ d).
+
+func init() {
+	reg(&Rule{ID: "R-SLOT-CAP", Min: 1,
+		Doc: "a per-element slot carved out of a shared buffer field (x.F[i] = x.G[lo:hi:max]) is capacity-limited to its own region: max is given, max − lo is a constant d ≥ 1 and lo advances by at least d per element, so appending to one slot cannot overwrite the next",
+		Run: ruleSlotCap})
+}
+
+func ruleSlotCap(c *Ctx) {
+	n := 0
+	for _, fn := range c.allFuncs {
+		if fn.Pkg != c.lz || fn.Blocks == nil {
+			continue
+		}
+		fi := c.info(fn)
+		for _, b := range fn.Blocks {
+			for _, in := range b.Instrs {
+				st, ok := in.(*ssa.Store)
+				if !ok {
+					continue
+				}
+				ia, ok := st.Addr.(*ssa.IndexAddr)
+				if !ok {
+					continue
+				}
+				sl, ok := st.Val.(*ssa.Slice)
+				if !ok {
+					continue
+				}
+				dstF := loadedField(ia.X)
+				srcF := loadedField(sl.X)
+				if dstF == nil || srcF == nil || dstF == srcF {
+					continue
+				}
+				// F is a slice of slices of G's type
+				ft, ok := dstF.Type().Underlying().(*types.Slice)
+				if !ok || !types.Identical(ft.Elem(), srcF.Type()) {
+					continue
+				}
+				n++
+				key := fmt.Sprintf("%s:slot#%d", fnName(fn), n)
+				if sl.Max == nil || sl.Low == nil {
+					c.fail(key, st.Pos(), "the slot %s[i] is a plain sub-slice of the shared buffer %s: its capacity reaches to the end of the buffer, so an append to it that exceeds the room meant for it overwrites the slots of the following elements instead of reallocating", dstF.Name(), srcF.Name())
+					continue
+				}
+				d := fi.lin(sl.Max).sub(fi.lin(sl.Low))
+				lo := fi.lin(sl.Low)
+				idx := fi.lin(ia.Index)
+				okD := len(d.t) == 0 && d.c >= 1
+				// low = c·idx + e: the coefficient of the (single) index atom
+				okStride := false
+				if okD && len(idx.t) == 1 {
+					for a, co := range idx.t {
+						if co == 1 && lo.t[a] >= d.c {
+							okStride = true
+						}
+					}
+				}
+				c.check(okD && okStride, key, st.Pos(), fmt.Sprintf("slot %s[%s] = %s[lo:…:lo+%d] with lo = %s: capacity limited to the slot, slots do not overlap", dstF.Name(), idx, srcF.Name(), d.c, lo),
+					fmt.Sprintf("the slot %s[%s] carved out of %s is not limited to its own region (max − low = %s, low = %s): an append to one slot can overwrite the next", dstF.Name(), idx, srcF.Name(), d, lo))
+			}
+		}
+	}
+	if n == 0 {
+		c.fail("slots", token.NoPos, "no per-element slot carved out of a shared buffer found (the optimizing parser's edge slots are the reference instance)")
+	}
+}
